@@ -397,6 +397,34 @@ def rule_v2(chk: Check) -> None:
     if not oks:
         chk.finding("V2", tf.key, "titan-guard:integer-size-strict", "the Titan size is handed to int() without first being tested to consist of ASCII digits: int() also accepts '1_0', ' +5 ', '+5' and non-ASCII digits such as '٥', so request lines whose size is not well-formed reach the upload handler", tf.loc())
     chk.ob("V2", "Titan size text is ASCII digits before int()", oks)
+    # exact request-line samples through the whole parser (helpers inlined, parse_url's own
+    # verdict left open): a fragment after the parameters, or a user-info in an authority the
+    # first ';' cuts through, is never seen by the URL checks - the parser itself must refuse
+    titan_samples = {
+        "a fragment after the parameters (`...;size=5;mime=text/plain#frag`)": "titan://example.org/f;size=5;mime=text/plain#frag",
+        "a user-info hidden by a `;` inside the authority (`titan://u;x@host/f;size=5`)": "titan://u;x@example.org/f;size=5",
+    }
+    for name, sample in titan_samples.items():
+        interp = Interp(chk.proj, tf)
+        res = interp.run_paths(g2, lambda n: [], {line: lit(sample)}, follow=lambda lab: lab != "exc")
+        ends = []
+        for path, _ in res:
+            last = path[-1][0]
+            if last.kind == "exit":
+                ends.append(("return", path))
+            elif last.kind == "raise_exit":
+                rn = next((x for x, _l in reversed(path[:-1]) if isinstance(x.ast, ast.Raise)), None)
+                ends.append(("raise:" + (norm(rn.ast.exc.func) if rn is not None and isinstance(rn.ast.exc, ast.Call) else "?"), path))
+        bad = [p_ for k, p_ in ends if k != "raise:ValueError"]
+        oks = bool(ends) and not bad
+        if not oks:
+            chk.finding("V2", tf.key, f"titan-accepts:{name[:40]}", f"the Titan request parser does not raise ValueError on every path for a line with {name}: the line is cut at the first `;` before the user-info / fragment tests look at it, so it is dispatched to the upload handler", tf.loc(), g2.fmt_path(bad[0]) if bad else [])
+        chk.ob("V2", f"Titan parser rejects {name}", oks, f"{len(ends)} feasible paths", evals=max(1, len(ends)))
+    res = Interp(chk.proj, tf).run_paths(g2, lambda n: [], {line: lit("titan://example.org/f;size=5;mime=text/plain")}, follow=lambda lab: lab != "exc")
+    okc = any(path[-1][0].kind == "exit" for path, _ in res)
+    if not okc:
+        chk.finding("V2", tf.key, "titan-rejects-conforming", "the Titan request parser cannot return for a plain conforming line (abstract sample)", tf.loc())
+    chk.ob("V2", "Titan parser returns for a conforming sample", okc)
     # the base URL goes through parse_url
     okb = any((dotted(c.func) or "").split(".")[-1] == "parse_url" for c in calls(tf.node))
     if okb:
